@@ -281,6 +281,55 @@ theorem circuit_breaker_spelled (s : Breaker.Spelled) (P T : Nat) (hP : Ttl.Deno
     breaker_conforms _ hp httl calls hinc hlen⟩
   simp [Breaker.Spelled.params, hP.ticks_eq, hT.ticks_eq]
 
+/-- **rate_limit with callable durations, every combination.**  `period` and `ttl` may each be plain or a callable of
+the call's arguments - plain + plain, callable period, callable ttl, both.  If for the arguments `args` of a call
+`period` denotes `P` ticks and `ttl` (when given) denotes `T` ticks, that call works with exactly `period = P`,
+`ttl = T`: each of the two is resolved on its own, so the ban a first rejection arms is the `T or P` of `fixed_window`
+whether or not the *other* duration is a callable.  For calls that all resolve to the same `P > 0`, `T` the history is
+therefore the `Rate.run` of `fixed_window` with these parameters. -/
+theorem rate_limit_callable_spelled (s : Rate.SpelledC) (args P : Nat) (T : Option Nat)
+    (hP : Ttl.DenotesAt args s.period P)
+    (hT : match s.ttl, T with | none, none => True | some sp, some t => Ttl.DenotesAt args sp t | _, _ => False)
+    (hp : 0 < P) (calls : List Nat) :
+    ∃ p : Rate.Params, s.paramsAt args = some p ∧ p.limit = s.limit ∧ p.period = P ∧ p.ttl = T ∧
+      ∀ w ∈ windows P p.effTtl [] (Rate.run p TtlMap.init calls), RunsFirst s.limit w := by
+  refine ⟨⟨s.limit, P, T⟩, ?_, rfl, rfl, rfl, fixed_window ⟨s.limit, P, T⟩ hp calls⟩
+  unfold Rate.SpelledC.paramsAt
+  rw [hP.ticks_eq]
+  cases hs : s.ttl with
+  | none => cases T with
+    | none => rfl
+    | some t => simp [hs] at hT
+  | some sp => cases T with
+    | none => simp [hs] at hT
+    | some t =>
+      simp only [hs] at hT
+      simp [Ttl.DenotesAt.ticks_eq hT]
+
+/-- **slice_rate_limit with a callable period**: a call whose arguments make `period` denote `P > 0` ticks works with
+`period = P`; for calls that all resolve to the same `P` the bound of `sliding` holds. -/
+theorem slice_rate_limit_callable_spelled (s : SlideRate.SpelledC) (args P : Nat) (hP : Ttl.DenotesAt args s.period P)
+    (hp : 0 < P) (calls : List Nat) (hinc : StrictlyIncreasing calls) (t : Nat) :
+    ∃ p : SlideRate.Params, s.paramsAt args = some p ∧ p.limit = s.limit ∧ p.period = P ∧
+      runsIn (SlideRate.run p TtlMap.init calls) t P ≤ s.limit := by
+  refine ⟨⟨s.limit, P⟩, ?_, rfl, rfl, sliding ⟨s.limit, P⟩ hp calls hinc t⟩
+  simp [SlideRate.SpelledC.paramsAt, hP.ticks_eq]
+
+/-- **The trip test is exact.**  The breaker's decision on the counts `(total, fails)` is
+`total ≠ 0 ∧ min_calls ≤ total ∧ errors_rate · total ≤ 100 · fails` - a comparison of the exact share with the
+threshold, not of a rounded or truncated percentage: a share strictly below `errors_rate` never trips, however close
+(2 of 3 against 67, 1 of 6 against 17, 3 of 7 against 43: all round onto the threshold, none trips). -/
+theorem breaker_trip_is_exact (p : Breaker.Params) (total fails : Nat) :
+    (Breaker.trips p total fails = true ↔ total ≠ 0 ∧ p.minCalls ≤ total ∧ p.rate * total ≤ fails * 100) ∧
+    (fails * 100 < p.rate * total → Breaker.trips p total fails = false) := by
+  unfold Breaker.trips
+  constructor
+  · simp only [Bool.and_eq_true, bne_iff_ne, ne_eq, Bool.not_eq_true', decide_eq_false_iff_not, Nat.not_lt,
+      decide_eq_true_eq, and_assoc]
+  · intro h
+    have : ¬ p.rate * total ≤ fails * 100 := by omega
+    simp [this]
+
 /-! ## Non-vacuity: the models do something, the hypotheses are satisfiable, the remarks are real -/
 
 /-- limit 2, period 1 s, ban 2 s: calls at 0, ⅛, ¼ (rejected: ban until 2¼ s), 1 s (still banned although the
@@ -355,5 +404,21 @@ example : Ttl.Denotes (.delta (Ttl.TDelta.ticks ⟨1, 3600, 0⟩)) 720000 ∧
 
 /-- a spelling the parser refuses: the decorator is not built -/
 example : (SlideRate.Spelled.params ⟨1, .str "1w".toList⟩).isNone = true := by decide
+
+/-- the four combinations for `rate_limit(limit=2, period=2 s, ttl=6 s)`: plain / callable period with plain / callable
+ttl all resolve to the same parameters for a call with arguments 7 (the callables look at their argument) -/
+example : let per : Ttl.Spelling := .plain (.int 2)
+    let perC : Ttl.Spelling := .callable fun a _ => if a = 7 then .delta 16 else .int 0
+    let ttl : Ttl.Spelling := .plain (.str "6s".toList)
+    let ttlC : Ttl.Spelling := .callable fun a _ => if a = 7 then .float 48 else .int 0
+    [Rate.SpelledC.paramsAt ⟨2, per, some ttl⟩ 7, Rate.SpelledC.paramsAt ⟨2, perC, some ttl⟩ 7,
+     Rate.SpelledC.paramsAt ⟨2, per, some ttlC⟩ 7, Rate.SpelledC.paramsAt ⟨2, perC, some ttlC⟩ 7].map
+      (fun o => o.map fun p => (p.limit, p.period, p.ttl)) = List.replicate 4 (some (2, 16, some 48)) := by decide
+
+/-- shares that round onto the threshold do not trip; the next lower threshold does -/
+example : Breaker.trips { rate := 67, period := 32, ttl := 16, minCalls := 3 } 3 2 = false ∧
+    Breaker.trips { rate := 66, period := 32, ttl := 16, minCalls := 3 } 3 2 = true ∧
+    Breaker.trips { rate := 17, period := 32, ttl := 16, minCalls := 1 } 6 1 = false ∧
+    Breaker.trips { rate := 43, period := 32, ttl := 16, minCalls := 1 } 7 3 = false := by decide
 
 end CashewsVerif.Props.C15
